@@ -33,6 +33,8 @@ func runC31(c *Ctx) {
 	r.Rule("C31.R4", "buildSample: every path that returns a sample has consumed its run (active.head = consume.tail), stored the sample at prepared.tail before advancing it, and purged the consumed run", 3)
 	r.Rule("C31.R5", "buildSample: a sample literal is only built when the run's first packet is a partition head (IsPartitionHead on buffer[consume.head].Payload is true)", 1)
 	r.Rule("C31.R6", "buildSample: a run ends at i+1 only when packet i is a partition tail, and at i only when packet i's timestamp differs from the run head's; the run always starts at active.head; payloads are concatenated by a forward loop from consume.head to consume.tail with no skipped element", 4)
+	r.Rule("C31.R7", "seqnumDistance and timestampDistance equal the circular distance min(d, 2^n-d) on boundary values of both operands, including across the wrap-around", 2)
+	r.Rule("C31.R8", "purgeBuffers force-drops a packet (active.head++ / droppedPackets++) only on the edge where active.head == filled.head holds: only the oldest buffered packet may be given up", 2)
 	r.NotCovered = append(r.NotCovered,
 		"behaviour over arbitrary push histories: reordering within maxLate, purging/too-old logic, wrap-around interplay between filled/active intervals",
 		"Before vs After classification of positions outside the interval (modular distance arithmetic)",
@@ -70,6 +72,8 @@ func runC31(c *Ctx) {
 	c31Push(c, push, cmp, purge, kc)
 	c31Queue(c, pop, build)
 	c31Build(c, build)
+	c31R7(c, "C31.R7")
+	c31R8(c, "C31.R8")
 }
 
 func c31Compare(c *Ctx, cmp *core.FuncInfo, valName func(absint.Val) string) {
@@ -812,4 +816,140 @@ func c31HasTimestampNeq(info *types.Info, cond ast.Expr, fTS *types.Var, isBufI 
 		}
 	}
 	return false
+}
+
+// c31R7: the modular distances used by the too-old test and by count(): seqnumDistance (16 bit)
+// and timestampDistance (32 bit) are evaluated over boundary values of both operands and must equal
+// the circular distance min(d, 2^n - d), d = (x - y) mod 2^n - in particular across the wrap-around.
+// (Added after seed C31-m1: a plain unsigned |x-y| reports ~2^32 for timestamps that straddle the
+// wrap, the buffer is judged too old and in-flight packets are force-dropped.)
+func c31R7(c *Ctx, rule string) {
+	r := c.R
+	for _, spec := range []struct {
+		fn   string
+		bits uint
+		t    types.Type
+	}{{"seqnumDistance", 16, types.Typ[types.Uint16]}, {"timestampDistance", 32, types.Typ[types.Uint32]}} {
+		fi := c.mustFunc(rule, c31Pkg, spec.fn)
+		if fi == nil {
+			continue
+		}
+		pos := c.P.Pos(fi.Decl.Pos())
+		mod := int64(1) << spec.bits
+		half := mod / 2
+		vals := []int64{0, 1, 2, 1000, half - 1, half, half + 1, mod - 1000, mod - 2, mod - 1}
+		bad, undec := "", ""
+		for _, x := range vals {
+			for _, y := range vals {
+				ev := &core.Evaluator{P: c.P, Fuel: 200}
+				out := ev.Call(fi, core.EVal{}, []core.EVal{core.EInt(x, spec.t), core.EInt(y, spec.t)})
+				r.Cells++
+				if out.Kind != "return" || len(out.Results) != 1 {
+					undec = sprintf("%s(%d, %d): %s %s", spec.fn, x, y, out.Kind, out.Why)
+					continue
+				}
+				got, ok := out.Results[0].Int64()
+				if !ok {
+					undec = sprintf("%s(%d, %d): result %s", spec.fn, x, y, out.Results[0])
+					continue
+				}
+				d := ((x-y)%mod + mod) % mod
+				want := d
+				if mod-d < d {
+					want = mod - d
+				}
+				if got != want {
+					bad = sprintf("%s(%d, %d) = %d, the circular distance modulo 2^%d is %d", spec.fn, x, y, got, spec.bits, want)
+				}
+			}
+		}
+		key := spec.fn + "|circular-distance"
+		if undec != "" && bad == "" {
+			r.Undecided(rule, key, pos, "could not evaluate: "+undec)
+			continue
+		}
+		r.Check(bad == "", rule, key, pos, sprintf("equals min(d, 2^%d-d) on %d boundary pairs", spec.bits, len(vals)*len(vals)), bad+": values on either side of the wrap-around are reported far apart")
+	}
+}
+
+// c31R8: a packet is force-dropped (active.head++ together with droppedPackets++) only when it is
+// the OLDEST buffered packet, i.e. on the edge where active.head == filled.head holds. Dropping at any
+// other position discards a packet that is still waiting for its predecessors within maxLate.
+// (Added after seed C31-m2: the `active.head == filled.head` conjunct was removed from purgeBuffers.)
+func c31R8(c *Ctx, rule string) {
+	r := c.R
+	fi := c.mustFunc(rule, c31Pkg, "SampleBuilder.purgeBuffers")
+	fActive := c.mustField(rule, c31Pkg, "SampleBuilder", "active")
+	fFilled := c.mustField(rule, c31Pkg, "SampleBuilder", "filled")
+	fDropped := c.mustField(rule, c31Pkg, "SampleBuilder", "droppedPackets")
+	fHead := c.mustField(rule, c31Pkg, "sampleSequenceLocation", "head")
+	if fi == nil || fActive == nil || fFilled == nil || fDropped == nil || fHead == nil {
+		return
+	}
+	g := c.P.GraphOf(fi)
+	info := g.Info
+	isHeadOf := func(e ast.Expr, owner *types.Var) bool {
+		se, ok := ast.Unparen(e).(*ast.SelectorExpr)
+		return ok && core.FieldOf(info, se) == fHead && core.FieldOf(info, se.X) == owner
+	}
+	sameHead := map[core.EdgeRef]bool{}
+	for _, n := range g.Nodes {
+		for i, e := range n.Succs {
+			if e.Cond == nil || e.Tag != nil || e.Branch == 0 {
+				continue
+			}
+			var facts []ast.Expr
+			var collect func(x ast.Expr, truth bool)
+			collect = func(x ast.Expr, truth bool) {
+				x = ast.Unparen(x)
+				switch b := x.(type) {
+				case *ast.UnaryExpr:
+					if b.Op == token.NOT {
+						collect(b.X, !truth)
+					}
+				case *ast.BinaryExpr:
+					switch {
+					case b.Op == token.LAND && truth:
+						collect(b.X, true)
+						collect(b.Y, true)
+					case b.Op == token.LOR && !truth:
+						collect(b.X, false)
+						collect(b.Y, false)
+					case (b.Op == token.EQL && truth) || (b.Op == token.NEQ && !truth):
+						facts = append(facts, b)
+					}
+				}
+			}
+			collect(e.Cond, e.Branch == 1)
+			for _, f := range facts {
+				b := f.(*ast.BinaryExpr)
+				if (isHeadOf(b.X, fActive) && isHeadOf(b.Y, fFilled)) || (isHeadOf(b.X, fFilled) && isHeadOf(b.Y, fActive)) {
+					sameHead[core.EdgeRef{From: n.ID, Idx: i}] = true
+				}
+			}
+		}
+	}
+	n := 0
+	for _, nd := range g.Nodes {
+		inc, ok := nd.Ast.(*ast.IncDecStmt)
+		if !ok || inc.Tok != token.INC {
+			continue
+		}
+		what := ""
+		switch {
+		case isHeadOf(inc.X, fActive):
+			what = "active.head++"
+		case core.FieldOf(info, inc.X) == fDropped:
+			what = "droppedPackets++"
+		default:
+			continue
+		}
+		n++
+		r.Check(len(sameHead) > 0 && g.DominatedByEdges(nd.ID, sameHead), rule, "purgeBuffers|forced-drop|"+what, c.P.Pos(inc.Pos()),
+			"only the oldest buffered packet (active.head == filled.head) is force-dropped",
+			what+" in purgeBuffers is reachable without active.head == filled.head having been established: a packet that is not the oldest one in the buffer is dropped although its predecessors may still arrive within maxLate")
+	}
+	if n == 0 {
+		r.Undecided(rule, "purgeBuffers|forced-drop", c.P.Pos(fi.Decl.Pos()), "no forced-drop statements (active.head++ / droppedPackets++) found")
+	}
 }
